@@ -224,6 +224,36 @@ func replayLegacy(line []byte, a *Acc) {
 		eb = j2x.JsonReaderToXmlWriter(rd, &w2)
 		eq("j2x.JsonReaderToXmlWriter twice on one stream of two messages", w1.String()+cls(ea)+"|"+w2.String()+cls(eb), string(xdoc)+"ok|"+string(xdoc)+"ok")
 	}
+	// a message whose top-level value is a LIST (of the document twice; of scalars): the bytes forms are NewMapJson then
+	// Xml / XmlWriter (the list is wrapped under "object"), the reader forms NewMapJsonReaderRaw then Xml -- each its own composition
+	for li, ldoc := range [][]byte{append(append(append(append([]byte("["), jdoc...), ','), jdoc...), ']'), []byte(`[1,"x"]`), []byte(`[]`)} {
+		kind := []string{"[doc,doc]", `[1,"x"]`, "[]"}[li]
+		lm, lerr := mxj.NewMapJson(ldoc)
+		var lx []byte
+		lxerr := lerr
+		if lerr == nil {
+			lx, lxerr = lm.Xml()
+		}
+		b1, e1 := j2x.JsonToXml(ldoc)
+		eq("j2x.JsonToXml on the list message "+kind, string(b1)+cls(e1), string(lx)+cls(lxerr))
+		var lw, lw2 bytes.Buffer
+		e1 = j2x.JsonToXmlWriter(ldoc, &lw)
+		var e2 error = lerr
+		if lerr == nil {
+			e2 = lm.XmlWriter(&lw2)
+		}
+		eq("j2x.JsonToXmlWriter on the list message "+kind, lw.String()+cls(e1), lw2.String()+cls(e2))
+		jm2, e3 := j2x.JsonToMap(ldoc)
+		eq("j2x.JsonToMap on the list message "+kind, canonOrNil(mxj.Map(jm2))+cls(e3), canonOrNil(lm)+cls(lerr))
+		rm, rraw, rerr := mxj.NewMapJsonReaderRaw(bytes.NewReader(ldoc))
+		var rx []byte
+		rxerr := rerr
+		if rerr == nil {
+			rx, rxerr = rm.Xml()
+		}
+		raw2, b2, e4 := j2x.JsonReaderToXml(bytes.NewReader(ldoc))
+		eq("j2x.JsonReaderToXml on the list message "+kind, string(raw2)+"|"+string(b2)+cls(e4), string(rraw)+"|"+string(rx)+cls(rxerr))
+	}
 	for _, k := range l.Ks {
 		called("JsonPathsForKey")
 		ps, e := j2x.JsonPathsForKey(jdoc, k.Key)
